@@ -195,8 +195,8 @@ func Generate(seed uint64) *Corpus {
 	var names []string
 	add := func(s *StructDef) {
 		c.Structs = append(c.Structs, s)
-		if !s.Rejected() {
-			names = append(names, s.Name)
+		if !s.Rejected() && !s.PanicInit {
+			names = append(names, s.Name) // what generated definitions may nest
 		}
 	}
 	// fixed coverage structs: every scalar kind in every requiredness; every key kind x value form
@@ -426,11 +426,24 @@ func (g *gen) aliasAndFixed() []*StructDef {
 			d(15, Optional, I8, -128, ""), d(16, Optional, I16, 256, ""), d(17, Required, I32, 42, ""), d(18, Default, String, 0, "dflt"),
 			d(19, Required, Double, int64(math.Float64bits(2.5)), ""), f(20, Optional, I32))
 		s.InitDefault = true
+		// the same with fixed-width scalars only and no holder (a definition whose size could be thought constant)
+		sc := mk("ScalarDefaults", false,
+			d(1, Optional, I32, 7, ""), d(2, Optional, I64, 0, ""), d(3, Default, Bool, 1, ""), d(4, Optional, Double, int64(math.Float64bits(1.5)), ""),
+			d(5, Required, I16, 3, ""), d(6, Optional, I8, -1, ""), d(7, Optional, Enum, 2, ""), f(8, Default, I32))
+		sc.InitDefault = true
+		// scalars and strings only (nothing in it keeps a pointer into anything else), string defaults built at run
+		// time (odd ids) and literal ones
+		fl := mk("FlatDefaults", false,
+			d(1, Optional, String, 0, "flat-default-one-built-at-run-time"), d(2, Optional, I32, 5, ""), d(3, Optional, String, 0, "three"),
+			d(4, Optional, String, 0, "literal default of field four"), d(5, Optional, String, 0, "five-five-five-five"), f(6, Default, I64), d(7, Default, String, 0, "seven"))
+		fl.InitDefault = true
 		mk("HoldDefaults", false,
 			&Field{ID: 1, Name: "F1", T: &T{K: Struct, S: "Defaults", Ptr: true}},
 			&Field{ID: 2, Name: "F2", T: &T{K: List, Elem: &T{K: Struct, S: "Defaults"}}},
 			&Field{ID: 3, Name: "F3", T: &T{K: Map, Key: &T{K: I32}, Elem: &T{K: Struct, S: "Defaults", Ptr: true}}, Req: Optional},
-			&Field{ID: 4, Name: "F4", T: &T{K: Struct, S: "Defaults"}})
+			&Field{ID: 4, Name: "F4", T: &T{K: Struct, S: "Defaults"}},
+			&Field{ID: 5, Name: "F5", T: &T{K: Struct, S: "ScalarDefaults"}, Req: Optional},
+			&Field{ID: 6, Name: "F6", T: &T{K: List, Elem: &T{K: Struct, S: "ScalarDefaults", Ptr: true}}})
 	}
 	// pairs of unrelated definitions with the same largest id and the same number of fields whose other ids differ
 	// by multiples of 64 (anything keyed by "id modulo word size" or by a summary of the id set confuses them)
@@ -457,6 +470,14 @@ func (g *gen) aliasAndFixed() []*StructDef {
 		}
 		mk("Wide300", false, fs...)
 	}
+	// field counts on both sides of a byte-sized index
+	for _, n := range []int{255, 256, 257} {
+		var fs []*Field
+		for i := 1; i <= n; i++ {
+			fs = append(fs, f(uint16(i), []Req{Default, Default, Optional, Required}[i%4], []Kind{I32, I16, I64, Bool}[i%4]))
+		}
+		mk(fmt.Sprintf("Wide%d", n), n == 256, fs...)
+	}
 	mk("FixedU", true, f(1, Default, I32), f(2, Required, I64), f(3, Default, Bool), f(4, Default, Double))
 	mk("FixedN", false, f(1, Default, I16), f(2, Required, I8), f(7, Default, I64))
 	mk("FixedOneU", true, f(3, Default, I64))
@@ -473,10 +494,25 @@ func (g *gen) aliasAndFixed() []*StructDef {
 		&Field{ID: 4, Name: "F4", T: &T{K: Struct, S: "AllReqU"}},
 		&Field{ID: 5, Name: "F5", T: &T{K: Map, Key: &T{K: I64}, Elem: &T{K: Struct, S: "AllReqV", Ptr: true}}, Req: Optional},
 		&Field{ID: 6, Name: "F6", T: &T{K: Map, Key: &T{K: I8}, Elem: &T{K: Map, Key: &T{K: I32}, Elem: &T{K: Struct, S: "AllReqU"}}}})
+	// definitions whose own initialiser panics: the panic reaches the caller, and nothing frugal holds at that moment
+	// (registration lock, half-built descriptors) may stay behind
+	for i := 0; i < 3; i++ {
+		s := mk(fmt.Sprintf("PanicInit%d", i), i == 1, f(1, Default, I32), f(2, Optional, String), f(3, Required, I64))
+		s.PanicInit = true
+	}
+	mk("HoldPanicInit", false,
+		&Field{ID: 1, Name: "F1", T: &T{K: Struct, S: "FixedN", Ptr: true}},
+		&Field{ID: 2, Name: "F2", T: &T{K: List, Elem: &T{K: Struct, S: "PanicInit2", Ptr: true}}},
+		&Field{ID: 3, Name: "F3", T: &T{K: I64}}).PanicInit = true
 	// nocopy views and the unknown-fields holder in the same definition (both refer to the message: one by design,
 	// the other must not), at the top level and nested
 	{
-		nc := func(id uint16, req Req, k Kind) *Field { x := f(id, req, k); x.NoCopy = true; x.OptPtr = false; return x }
+		nc := func(id uint16, req Req, k Kind) *Field {
+			x := f(id, req, k)
+			x.NoCopy = true
+			x.OptPtr = false
+			return x
+		}
 		mk("NcU", true, nc(1, Default, String), f(2, Default, I32), nc(3, Optional, Binary), f(4, Optional, I64), f(9, Default, String))
 		mk("HoldNcU", true,
 			&Field{ID: 1, Name: "F1", T: &T{K: Struct, S: "NcU", Ptr: true}},
@@ -677,16 +713,27 @@ func (g *gen) invalids(valid []string) []*StructDef {
 				{ID: 2, Name: "F2", T: &T{K: Struct, S: "ByKeyLeaf", Ptr: true}},
 				{ID: 3, Name: "F3", T: &T{K: String}, Req: Optional, OptPtr: true},
 			}})
-			switch (i / 5) % 4 {
+			switch (i / 5) % 6 {
 			case 0:
 				cont.Fields[0].T = &T{K: Struct, S: leaf}
 			case 1:
 				cont.Fields[0].T = &T{K: List, Elem: &T{K: Struct, S: leaf}}
 			case 2:
 				cont.Fields[0].T = &T{K: Map, Key: &T{K: I32}, Elem: &T{K: Struct, S: leaf}}
+			case 3:
+				cont.Fields[0].T = &T{K: List, Elem: &T{K: Struct, S: leaf, Ptr: true}}
+			case 4:
+				cont.Fields[0].T = &T{K: Map, Key: &T{K: String}, Elem: &T{K: Struct, S: leaf, Ptr: true}}
 			default:
 				cont.Fields[0].T = &T{K: Struct, S: leaf, Ptr: true}
 			}
+			// and a valid definition that holds the leaf in exactly the same Go type with the same annotation: whatever
+			// is cached per (Go type, annotation) during the failed registration is met again here
+			ft := *cont.Fields[0].T
+			out = append(out, &StructDef{Name: fmt.Sprintf("ByHold%d", i), Cluster: -1, Fields: []*Field{
+				{ID: 1, Name: "F1", T: &ft},
+				{ID: 2, Name: "F2", T: &T{K: I32}},
+			}})
 		}
 		if i%4 == 0 {
 			// second level: contains a container
